@@ -33,9 +33,19 @@ Lemma qinv_sound M X : qinv M = Some X ->
   qmatmul (length M) M X = qident (length M) /\ qmatmul (length M) X M = qident (length M).
 Proof.
   unfold qinv. destruct (solve_candidate M _) as [Y|]; [|discriminate].
-  destruct (qcll_eqb _ _ && qcll_eqb _ _) eqn:E; [|discriminate].
-  intros H; injection H as <-. apply andb_true_iff in E as [E1 E2].
+  destruct (qcll_eqb _ _ && qcll_eqb _ _ && _ && _) eqn:E; [|discriminate].
+  intros H; injection H as <-. apply andb_true_iff in E as [E E4]. apply andb_true_iff in E as [E E3].
+  apply andb_true_iff in E as [E1 E2].
   split; apply qcll_eqb_eq; assumption.
+Qed.
+
+Lemma qinv_shape M X : qinv M = Some X -> wf_mat (length M) X /\ length X = length M.
+Proof.
+  unfold qinv. destruct (solve_candidate M _) as [Y|]; [|discriminate].
+  destruct (qcll_eqb _ _ && qcll_eqb _ _ && _ && _) eqn:E; [|discriminate].
+  intros H; injection H as <-. apply andb_true_iff in E as [E E4]. apply andb_true_iff in E as [E E3].
+  split; [|apply Nat.eqb_eq; exact E3].
+  unfold wf_mat. apply Forall_forall. intros r Hr. rewrite forallb_forall in E4. apply Nat.eqb_eq. exact (E4 r Hr).
 Qed.
 
 (* ---------------------------------------------------------------------------------------------
@@ -59,6 +69,7 @@ Lemma map_core_balance x :
 Proof.
   unfold map_core. destruct (Nat.eqb (length x0) n) eqn:E0; cbn [negb]; [|discriminate].
   apply Nat.eqb_eq in E0.
+  destruct (forallb _ A) eqn:EA; cbn [negb]; [|discriminate].
   destruct (qsolve _ _) as [z|] eqn:ES; [|discriminate].
   intros H; injection H as <-.
   apply qsolve_sound in ES as [ES HLz].
@@ -205,6 +216,23 @@ Proof. reflexivity. Qed.
 Lemma map_core_scalar_mean_refused m n A b x0 Ce Cx : length x0 <> n -> map_core m n A b x0 Ce Cx = EValue.
 Proof. intros H. unfold map_core. apply Nat.eqb_neq in H. rewrite H. reflexivity. Qed.
 
+Lemma map_core_shape_refused m n A b x0 Ce Cx :
+  (exists r, In r A /\ length r <> n) -> map_core m n A b x0 Ce Cx = EValue.
+Proof.
+  intros [r [Hin Hr]]. unfold map_core. destruct (Nat.eqb (length x0) n); cbn [negb]; [|reflexivity].
+  destruct (forallb _ A) eqn:E; cbn [negb]; [|reflexivity].
+  rewrite forallb_forall in E. specialize (E r Hin). apply Nat.eqb_eq in E. contradiction.
+Qed.
+
+(* a value is only returned for a stored matrix with n columns *)
+Lemma map_core_value_shape m n A b x0 Ce Cx x : map_core m n A b x0 Ce Cx = Val x -> wf_mat n A /\ length x0 = n.
+Proof.
+  unfold map_core. destruct (Nat.eqb (length x0) n) eqn:E0; cbn [negb]; [|discriminate].
+  destruct (forallb _ A) eqn:E; cbn [negb]; [|discriminate]. intros _.
+  split; [|apply Nat.eqb_eq; exact E0].
+  unfold wf_mat. apply Forall_forall. intros r Hr. rewrite forallb_forall in E. apply Nat.eqb_eq. exact (E r Hr).
+Qed.
+
 (* ---------------------------------------------------------------------------------------------
    direct sampler
    --------------------------------------------------------------------------------------------- *)
@@ -311,4 +339,92 @@ Lemma closed_example :
 Proof.
   eexists. eexists. eexists. split; [vm_compute; reflexivity|]. split; [vm_compute; reflexivity|].
   split; [vm_compute; reflexivity|]. qcl_eq.
+Qed.
+
+(* ---------------------------------------------------------------------------------------------
+   the whole sampler cascade of sample_posterior
+   --------------------------------------------------------------------------------------------- *)
+Definition is_nuts_excluded (c : dcls) : bool := match c with DBeta | DInvGamma | DLognormal => true | _ => false end.
+
+(* which tests fired, for each outcome (the cascade is a chain of if-then-else) *)
+Lemma cascade_inv joint P s q d :
+  let c1 := sample_route_direct P d in
+  let c2 := s && q && (match p_model P with MLinear => true | MGeneral => false end) in
+  let c3 := check_posterior P (Some [DLMRF]) (Some [DGaussian]) None None false in
+  let c4 := check_posterior P None None None None true
+            && negb (check_posterior P (Some [DBeta; DInvGamma; DLognormal]) None None None false) in
+  let c5 := check_posterior P (Some [DGaussian; DGMRF]) (Some [DGaussian]) None None false in
+  let c6 := check_posterior P (Some [DRegGaussian; DRegGMRF]) (Some [DGaussian]) (Some MLinear) None false in
+  match sample_route joint P s q d with
+  | SGibbs => joint = true
+  | SMapCholesky => joint = false /\ c1 = true
+  | SLinearRTO => joint = false /\ c1 = false /\ c2 = true
+  | SUGLA => joint = false /\ c1 = false /\ c2 = false /\ c3 = true
+  | SNUTS => joint = false /\ c1 = false /\ c2 = false /\ c3 = false /\ c4 = true
+  | SpCN => joint = false /\ c1 = false /\ c2 = false /\ c3 = false /\ c4 = false /\ c5 = true
+  | SRegLinearRTO => joint = false /\ c1 = false /\ c2 = false /\ c3 = false /\ c4 = false /\ c5 = false /\ c6 = true
+  | SNotImplemented => joint = false /\ c1 = false /\ c2 = false /\ c3 = false /\ c4 = false /\ c5 = false /\ c6 = false
+  end.
+Proof.
+  intros c1 c2 c3 c4 c5 c6. unfold sample_route. fold c1 c2 c3 c4 c5 c6.
+  destruct joint, c1, c2, c3, c4, c5, c6; repeat split; reflexivity.
+Qed.
+
+Lemma cp_classes P pl ll mo :
+  check_posterior P (Some pl) (Some ll) mo None false = true ->
+  existsb (dcls_isa (p_prior P)) pl = true /\ existsb (dcls_isa (p_lik P)) ll = true /\
+  match mo with Some MLinear => p_model P = MLinear | _ => True end.
+Proof.
+  unfold check_posterior. intros H. rewrite !andb_true_r in H.
+  apply andb_true_iff in H as [H H3]. apply andb_true_iff in H as [H1 H2].
+  repeat split; try assumption. destruct mo as [[|]|]; try exact I. destruct (p_model P); [reflexivity | discriminate].
+Qed.
+
+Lemma isa_in_two a b c : existsb (dcls_isa a) [b; c] = true -> dcls_isa a b = true \/ dcls_isa a c = true.
+Proof. cbn [existsb]. rewrite orb_false_r. apply orb_true_iff. Qed.
+
+Lemma isa_gaussian a : dcls_isa a DGaussian = true -> a = DGaussian.
+Proof. destruct a; cbn; congruence. Qed.
+Lemma isa_gmrf a : dcls_isa a DGMRF = true -> a = DGMRF.
+Proof. destruct a; cbn; congruence. Qed.
+Lemma isa_lmrf a : dcls_isa a DLMRF = true -> a = DLMRF.
+Proof. destruct a; cbn; congruence. Qed.
+Lemma isa_reg a : dcls_isa a DRegGaussian = true -> a = DRegGaussian \/ a = DRegGMRF.
+Proof. destruct a; cbn; intros; try discriminate; auto. Qed.
+Lemma isa_reggmrf a : dcls_isa a DRegGMRF = true -> a = DRegGMRF.
+Proof. destruct a; cbn; congruence. Qed.
+
+Lemma cascade_spec joint P s q d :
+  let r := sample_route joint P s q d in
+  (r = SGibbs <-> joint = true) /\
+  (r = SMapCholesky <-> joint = false /\ map_route P d = RDirect) /\
+  (r = SLinearRTO -> joint = false /\ p_model P = MLinear /\ s = true /\ q = true /\ map_route P d = ROptimiser) /\
+  (r = SUGLA -> p_prior P = DLMRF /\ p_lik P = DGaussian) /\
+  (r = SNUTS -> p_has_grad P = true /\ is_nuts_excluded (p_prior P) = false) /\
+  (r = SpCN -> (p_prior P = DGaussian \/ p_prior P = DGMRF) /\ p_lik P = DGaussian) /\
+  (r = SRegLinearRTO -> (p_prior P = DRegGaussian \/ p_prior P = DRegGMRF) /\ p_lik P = DGaussian /\ p_model P = MLinear).
+Proof.
+  intros r. pose proof (cascade_inv joint P s q d) as I. fold r in I. cbv zeta in I.
+  pose proof (sample_route_eq_map_route P d) as E.
+  split. { split; [intros H; rewrite H in I; exact I | intros ->; reflexivity]. }
+  split. { split.
+    - intros H. rewrite H in I. destruct I as [I0 I]. split; [exact I0|]. rewrite E in I. destruct (map_route P d); [reflexivity | discriminate].
+    - intros [-> H]. unfold r, sample_route. rewrite E, H. reflexivity. }
+  split. { intros H. rewrite H in I. destruct I as (I0 & I1 & I2). rewrite E in I1.
+    split; [exact I0|]. destruct (p_model P); [|rewrite andb_false_r in I2; discriminate].
+    destruct s; [|discriminate]. destruct q; [|discriminate].
+    repeat split. destruct (map_route P d); [discriminate | reflexivity]. }
+  split. { intros H. rewrite H in I. destruct I as (_ & _ & _ & I). apply cp_classes in I as (I1 & I2 & _).
+    cbn [existsb] in I1, I2. rewrite orb_false_r in I1, I2. split; [apply isa_lmrf; exact I1 | apply isa_gaussian; exact I2]. }
+  split. { intros H. rewrite H in I. destruct I as (_ & _ & _ & _ & I). apply andb_true_iff in I as [I1 I2]. split.
+    - unfold check_posterior in I1. cbn in I1. exact I1.
+    - apply negb_true_iff in I2. unfold check_posterior in I2. rewrite !andb_true_r in I2. cbn [andb] in I2.
+      destruct (p_prior P); cbn in I2 |- *; congruence. }
+  split. { intros H. rewrite H in I. destruct I as (_ & _ & _ & _ & _ & I). apply cp_classes in I as (I1 & I2 & _). split.
+    - apply isa_in_two in I1 as [I1|I1]; [left; apply isa_gaussian | right; apply isa_gmrf]; exact I1.
+    - cbn [existsb] in I2. rewrite orb_false_r in I2. apply isa_gaussian. exact I2. }
+  intros H. rewrite H in I. destruct I as (_ & _ & _ & _ & _ & _ & I). apply cp_classes in I as (I1 & I2 & I3). split; [|split].
+  - apply isa_in_two in I1 as [I1|I1]; [apply isa_reg; exact I1 | right; apply isa_reggmrf; exact I1].
+  - cbn [existsb] in I2. rewrite orb_false_r in I2. apply isa_gaussian. exact I2.
+  - exact I3.
 Qed.
